@@ -81,7 +81,6 @@ tokTypes = {
     'if': ['eKeyword'],
     'inline': ['eKeyword'],
     'register': ['eKeyword'],
-    'restrict': ['eKeyword'],
     'return': ['eKeyword'],
     'sizeof': ['eKeyword'],
     'static': ['eKeyword'],
